@@ -52,6 +52,7 @@ def sources(tier):
     srcs = [
         ("pandas", Src("X", n, LCOLS, 4)),
         ("pandas3", Src("X", n, LCOLS, 3)),
+        ("pandas1", Src("X", 3, LCOLS, 1)),  # a single partition is also what broadcasting looks for: repeated selections must still repeat
         ("array", Src("X", 6, {"a": "i", "c": "i", "d": "i"}, 3, how="array")),
         ("map", Src("X", n, LCOLS, 4, how="map", cuts=(0, 1, 3, 4, 5))),
         ("delayed", Src("X", n, LCOLS, 4, how="delayed", cuts=(0, 2, 2, 4, 5))),
@@ -89,6 +90,8 @@ def _cfgs(tier):
             if src.how == "array" and any(c in text for c in ("'b'", ".b", "fillna")):
                 continue
             if src.how == "array" and "merge" in text:
+                continue
+            if sname == "pandas1" and tag not in ("source", "elemwise", "filter", "chain", "to_frame", "projection-series", "partition-info", "broadcast-scalar", "shuffle"):
                 continue
             if tier == "quick" and sname in ("pandas3", "graph") and tag not in ("source", "elemwise", "shuffle-staged", "broadcast-join"):
                 continue
